@@ -149,6 +149,11 @@ func TestWorker(t *testing.T) {
 	shrinkBudget := time.Duration(envInt("VERIF_SHRINK_MS", 15000)) * time.Millisecond
 	tree := os.Getenv("VERIF_TREE")
 
+	var curFile *os.File
+	if outPath != "" {
+		curFile, _ = os.Create(outPath + ".cur")
+		defer curFile.Close()
+	}
 	start := time.Now()
 	out := &WorkerOut{Property: propID, Seed: seed, Worker: worker, Workers: workers, RaceBuild: RaceBuild, Meta: p}
 	distinct := map[uint64]struct{}{}
@@ -160,6 +165,10 @@ func TestWorker(t *testing.T) {
 			break
 		}
 		runSeed := Mix(seed, HashString(propID), uint64(worker), uint64(i))
+		if curFile != nil {
+			// which run is executing: read by the driver if this process dies (a panic on a goroutine of the code under test)
+			curFile.WriteAt([]byte(fmt.Sprintf("%020d %09d\n", runSeed, i)), 0)
+		}
 		if d := envInt("VERIF_DUMP_RUN", -1); d >= 0 {
 			// debugging aid: print the full trace of one run index and stop
 			if i != d {
@@ -267,7 +276,11 @@ func replayMain(t *testing.T, p *Prop, path string) {
 		fmt.Fprintln(os.Stderr, "replay:", err)
 		os.Exit(2)
 	}
-	r := Execute(t, p, ReplayTape(rf.Tape), true)
+	tape := ReplayTape(rf.Tape)
+	if len(rf.Tape) == 0 && rf.RunSeed != 0 {
+		tape = NewTape(rf.RunSeed) // crash replay: the process died before the tape could be recorded
+	}
+	r := Execute(t, p, tape, true)
 	for _, l := range r.Notes {
 		fmt.Println("  " + l)
 	}
